@@ -337,10 +337,63 @@ def suites(tier, seed):
                 "histogram": rc.histogram, "shrink": rc.shrink_program,
                 "bound": "%d seeded random programs run through the real runner (hook faults, --stop, abort, dry-run, tag selection)" % len(progs),
                 "coq": rc.COQ})
+    # -- reset_model() between runs: nothing of the previous run may remain (statuses depend only on the latest run)
+    rprogs = [rc.with_random_faults(rnd, rc.gen_program(rnd), p_fault=0.4) if k % 3 == 0 else rc.gen_program(rnd)
+              for k in range(600 if thorough else 120)]
+    out.append({"name": "reset", "cases": rprogs, "impl": impl_reset, "oracle": oracle_reset,
+                "nontrivial": lambda c, o: True, "histogram": rc.histogram, "shrink": rc.shrink_program,
+                "bound": "%d programs: run, reset_model(features), every element's status" % len(rprogs)})
     # -- re-running an element: statuses depend only on the latest run
     from props import c02
     out.append(c02.rerun_suite(tier, rnd))
     return out
+
+
+def impl_reset(prog):
+    import runprog
+    from behave.model import reset_model, ScenarioOutline, Rule
+    obs = runprog.run_program(prog, want_model=True)
+    features = obs["_features"]
+    before = [f.status.name for f in features]
+    reset_model(features)
+    seen = []           # [path, status, in scope: the element and everything below it has at least one child]
+
+    def scen(sc, path):
+        steps = list(sc.all_steps)
+        seen.append([path + "/" + sc.name, sc.status.name, bool(steps)])
+        for i, st in enumerate(steps):
+            seen.append(["%s/%s/step%d" % (path, sc.name, i), st.status.name, True])
+        return bool(steps)
+
+    def item(x, path):
+        if isinstance(x, ScenarioOutline):
+            k = len(seen)
+            seen.append([path + "/" + x.name, x.status.name, False])
+            oks = [scen(r, path + "/" + x.name) for r in x.scenarios]
+            seen[k][2] = bool(oks) and all(oks)
+            return seen[k][2]
+        if isinstance(x, Rule):
+            k = len(seen)
+            seen.append([path + "/" + x.name, x.status.name, False])
+            oks = [item(y, path + "/" + x.name) for y in x.run_items]
+            seen[k][2] = bool(oks) and all(oks)
+            return seen[k][2]
+        return scen(x, path)
+    for f in features:
+        k = len(seen)
+        seen.append([f.name, f.status.name, False])
+        oks = [item(x, f.name) for x in f.run_items]
+        seen[k][2] = bool(oks) and all(oks)
+    return {"before": before, "after_reset": seen, "crashed": obs["crashed"]}
+
+
+def oracle_reset(case, obs):
+    if obs["crashed"]:
+        return []
+    left = [x[:2] for x in obs["after_reset"] if x[2] and x[1] != "untested"]
+    if left:
+        return [("after reset_model() %d element(s) still carry the previous run's status, e.g. %s" % (len(left), left[:4]), "reset-leaves-status")]
+    return []
 
 
 def _all_statuses(t):
